@@ -1,6 +1,8 @@
 import WS.Lemmas.HdrLogic
 import WS.Lemmas.ReaderRejects
 import WS.Gen.Skeletons
+import WS.Lemmas.ReaderLift
+import WS.Lemmas.ReaderMore
 /-
   C04 — Framing violations are rejected fail-stop and never reach the application.
 -/
@@ -71,5 +73,41 @@ theorem mrRead_after_error (c : Conn) (e : RErr) (he : c.r.readErr = some e) (ri
 
 /-- non-vacuity: RSV2 on a text frame to an idle server reader is a violation, and the model flags it -/
 example : headerErrors true false true (parseHdr 0xA1 0x80) = ["RSV2 set"] := by decide
+
+open WS.Codec WS.ReaderDecodes WS.ReaderLift
+/-- fail-stop at the API (reader idle, any conformant history behind it): the NextReader call that meets
+    a violating frame returns the protocol error (or, on what would be the 1000th failed call, the
+    repeated-read panic), records it, invokes no handler, consumes nothing beyond the 2 header bytes,
+    and writes exactly one 1002 close frame -/
+theorem nextReader_violation (c : Conn) (hc : ReaderIdle c) (hw : WHealthy c.w) (b0 b1 : UInt8) (rest : Bytes)
+    (hp : c.r.buf.pending = b0 :: b1 :: rest)
+    (hv : Violates c.r.isServer c.r.nego false (parseHdr b0 b1)) :
+    ∃ msg c', nextReader c = (if c.r.errCount + 1 ≥ 1000 then NRRes.panic else .err (.protocol msg), c') ∧
+      c'.r.readErr = some (.protocol msg) ∧
+      c'.r.hlog = c.r.hlog ∧ c'.r.buf.pending = rest ∧
+      c'.w.wire = c.w.wire ++ closeFrameBytes c.w ((closePayload 1002 (strBytes msg)).take 125) ∧
+      c'.w.writeErr = some .closeSent := by
+  first | exact ReaderLift.nextReader_violation_total .. | (apply ReaderLift.nextReader_violation_total <;> assumption)
+
+/-- fail-stop inside a fragmented message: the Read that meets the violating frame returns the error
+    with zero bytes — e.g. a new text/binary frame where a continuation is due -/
+theorem read_violation_mid_message (c : Conn) (rid : Nat) (hc : MidMessage c rid) (hw : WHealthy c.w) (b0 b1 : UInt8) (rest : Bytes)
+    (hp : c.r.buf.pending = b0 :: b1 :: rest)
+    (hv : Violates c.r.isServer c.r.nego true (parseHdr b0 b1)) (k : Nat) (hk : 0 < k) :
+    ∃ msg c', mrRead c rid k = (([], some (.protocol msg)), c') ∧ c'.r.readErr = some (.protocol msg) ∧
+      c'.r.hlog = c.r.hlog ∧
+      c'.w.wire = c.w.wire ++ closeFrameBytes c.w ((closePayload 1002 (strBytes msg)).take 125) := by
+  first | exact ReaderLift.read_violation_mid_message .. | (apply ReaderLift.read_violation_mid_message <;> assumption)
+
+open WS.ReaderMore in
+/-- on reachable states (failed-call counter 0 while no error is latched) there is no panic branch -/
+theorem nextReader_violation_reachable (c : Conn) (hc : ReaderIdle c) (hi : CountInv c) (hw : WHealthy c.w) (b0 b1 : UInt8) (rest : Bytes)
+    (hp : c.r.buf.pending = b0 :: b1 :: rest)
+    (hv : Violates c.r.isServer c.r.nego false (parseHdr b0 b1)) :
+    ∃ msg c', nextReader c = (.err (.protocol msg), c') ∧ c'.r.readErr = some (.protocol msg) ∧
+      c'.r.hlog = c.r.hlog ∧ c'.r.buf.pending = rest ∧
+      c'.w.wire = c.w.wire ++ closeFrameBytes c.w ((closePayload 1002 (strBytes msg)).take 125) ∧
+      c'.w.writeErr = some .closeSent := by
+  first | exact ReaderMore.nextReader_violation_reach .. | (apply ReaderMore.nextReader_violation_reach <;> assumption)
 
 end WS.Props.C04
